@@ -135,6 +135,8 @@ impl RunStats {
 
 #[derive(Default, Clone, Debug)]
 pub struct RunOutput {
+    /// per session: the normalised result of every trace-step call, in program order
+    pub observed: Vec<Vec<String>>,
     pub violations: Vec<Violation>,
     pub log_hash: u64,
     pub log: Option<Vec<String>>,
@@ -148,6 +150,7 @@ pub struct RunOutput {
 
 #[derive(Default)]
 pub struct SessOut {
+    pub observed: Vec<String>,
     pub violations: Vec<Violation>,
     pub stats: RunStats,
     pub state_hashes: Vec<u64>,
@@ -474,6 +477,12 @@ fn run_session(world: Arc<World>, ctx: Arc<ExecCtx>, trace: Arc<Trace>, id: usiz
                     }
                     sess.next_is_main = true;
                     let res = sess.raw_call(op);
+                    let full = match &res {
+                        Res::Ok(v) => format!("Ok {:016x} {}", hash_str(&normalize_ids(v)), first_line(&normalize_ids(v), 120)),
+                        Res::Err(_) => "Err".to_string(),
+                        Res::Panic(m, _) => format!("Panic {}", first_line(m, 80)),
+                    };
+                    sess.out.observed.push(format!("{}: {}", op.name(), full));
                     checker.after_call(&mut sess, op, &res);
                 }
                 Step::Env(ev) => {
@@ -532,6 +541,7 @@ pub fn execute(trace: &Trace, ctx: &Arc<ExecCtx>) -> RunOutput {
     for (id, h) in handles.into_iter().enumerate() {
         match h.join() {
             Ok(so) => {
+                out.observed.push(so.observed);
                 out.violations.extend(so.violations);
                 out.stats.merge(&so.stats);
                 out.state_hashes.extend(so.state_hashes);
@@ -540,7 +550,10 @@ pub fn execute(trace: &Trace, ctx: &Arc<ExecCtx>) -> RunOutput {
                     out.harness_error = so.harness_error;
                 }
             }
-            Err(_) => out.harness_error = Some(format!("session thread {} died", id)),
+            Err(_) => {
+                out.observed.push(vec![]);
+                out.harness_error = Some(format!("session thread {} died", id));
+            }
         }
     }
     let mut g = world.lock();
@@ -567,6 +580,55 @@ pub fn execute(trace: &Trace, ctx: &Arc<ExecCtx>) -> RunOutput {
     out.stats.sim_time_ms += ws.sim_time_ms;
     out.stats.switches += ws.switches;
     out.stats.yield_points += ws.yield_points;
+    out
+}
+
+/// execute + run-level oracles. For multi-session traces (C10's schedule clause): every session's results must
+/// equal those of its solo run (the same trace with the other sessions removed).
+pub fn execute_checked(trace: &Trace, ctx: &Arc<ExecCtx>) -> RunOutput {
+    let mut out = execute(trace, ctx);
+    if trace.sessions.len() > 1 && out.harness_error.is_none() && trace.checker == "C10" {
+        for i in 0..trace.sessions.len() {
+            let mut solo = trace.clone();
+            solo.sessions = vec![trace.sessions[i].clone()];
+            solo.injections = trace.injections.iter().filter(|j| j.session == i).cloned().map(|mut j| { j.session = 0; j }).collect();
+            solo.pre_call_env = trace.pre_call_env.iter().filter(|j| j.session == i).cloned().map(|mut j| { j.session = 0; j }).collect();
+            solo.sched = None;
+            let so = execute(&solo, ctx);
+            out.stats.ref_sessions += 1;
+            if let Some(e) = so.harness_error {
+                out.harness_error = Some(e);
+                break;
+            }
+            let a = out.observed.get(i).cloned().unwrap_or_default();
+            let b = so.observed.first().cloned().unwrap_or_default();
+            let mut diff = None;
+            for k in 0..a.len().max(b.len()) {
+                if a.get(k) != b.get(k) {
+                    diff = Some(k);
+                    break;
+                }
+            }
+            match diff {
+                Some(k) => {
+                    let name = a.get(k).or(b.get(k)).map(|x| x.split(':').next().unwrap_or("").to_string()).unwrap_or_default();
+                    out.violations.push(Violation {
+                        property: trace.property.clone(),
+                        class: "schedule-dependent-output".into(),
+                        sig: format!("{} differs from the solo run of the session", name),
+                        group: "differs from the solo run".into(),
+                        detail: format!("session {} step {}:
+interleaved: {}
+solo: {}", i, k, a.get(k).cloned().unwrap_or_default(), b.get(k).cloned().unwrap_or_default()),
+                        session: i,
+                        step: k,
+                    });
+                    break;
+                }
+                None => *out.stats.probes.entry("session_equals_solo_run".into()).or_insert(0) += 1,
+            }
+        }
+    }
     out
 }
 
